@@ -431,8 +431,10 @@ def r_tensor(ctx):
     # ---- R6 density: the cell volume of the model is given both as a field and through lengths / angles (V = abc sqrt(1 - sum cos^2 + 2 prod cos))
     conv = Rat(Poly.const(__import__("fractions").Fraction("1.6605387823355087")))
     fn = ctx.py.func(THERMO, "density")
-    cv = [const(n.value) for n in walk_no_nested(fn) if isinstance(n, ast.Assign) and dotted(n.targets[0]) == "conversion"]
-    ctx.decide(bool(cv) and isinstance(cv[0], float) and abs(cv[0] - 1.66053907) < 1e-6, "C16-R6", fn, THERMO, "density", "conversion = 1.660539 (amu/nm^3 -> kg/m^3)", "", "unit conversion constant is %r" % (cv[:1],))
+    # the unit conversion: the floating-point literals of the function (whatever they are called); exactly one, and it is 1.660539 (amu/nm^3 -> kg/m^3);
+    # that it multiplies mass / volume is decided by the evaluation below
+    cv = [n.value for n in ast.walk(fn) if isinstance(n, ast.Constant) and isinstance(n.value, float) and n.value not in (0.0, 1.0)]
+    ctx.decide(len(cv) == 1 and abs(cv[0] - 1.66053907) < 1e-6, "C16-R6", fn, THERMO, "density", "conversion = 1.660539 (amu/nm^3 -> kg/m^3)", "", "unit conversion constant(s): %r" % (cv,))
     cvr = Rat(Poly.const(__import__("fractions").Fraction(str(cv[0])))) if cv and isinstance(cv[0], float) else conv
 
     def cell_model(ts_):
